@@ -204,10 +204,10 @@ def gen_sprout(rng, prof, nlevels, minr, levels):
     dfs = []
     if rng.random() < 0.6:
         dfs.append({"kind": "far_enough", "min_distance": minr * rng.choice([0.01, 0.05, 0.2, 0.5]),
-                    "norm_ord": rng.choice([1, 2, 2, "inf"])})
+                    "norm_ord": rng.choice([1, 2, 2, "inf", 1.5])})
     if gk != "best" and rng.random() < 0.6:
         dfs.append({"kind": "nbc_far_enough", "factor": rng.choice([0.5, 1.0, 2.0, 3.0]),
-                    "norm_ord": rng.choice([1, 2, 2, "inf"]), "check_only_active": rng.random() < 0.5})
+                    "norm_ord": rng.choice([1, 2, 2, "inf", 2.5]), "check_only_active": rng.random() < 0.5})
     if rng.random() < 0.7:
         dfs.append({"kind": "deme_limit", "limit": rng.choice([1, 1, 2, 3])})
     rng.shuffle(dfs)
